@@ -129,6 +129,26 @@ inductive FlatEls (num : Nat → Bytes → Nat) (fs : Bytes → Option Bytes) (e
       FlatEls num fs enc E id path t nxt1 (Layout.Ref.cursorAfter c pc) els p nxt' →
       FlatEls num fs enc E id path t nxt c (el :: els) (pc ++ p) nxt'
 
+/-- every statement of a flattened program is the abstraction of a source statement (not an `.include`) of some file
+instance over that instance's table, and that table is `E` at the instance -/
+theorem FlatEls.source {num : Nat → Bytes → Nat} {fs : Bytes → Option Bytes} {enc : Encoder} {E : Layout.Env} {id : Nat}
+    {path : Bytes} {t : Table} {nxt : Nat} {c : Option Nat} {els : List Element} {p : List Layout.Stmt} {nxt' : Nat}
+    (h : FlatEls num fs enc E id path t nxt c els p nxt') (ht : EnvRel (num id) t E) :
+    ∀ s ∈ p, ∃ id' path' t' c' el, EnvRel (num id') t' E ∧ isInclude el = false ∧
+      s = absStmt (num id') fs enc path' t' c' el := by
+  induction h with
+  | nil => intro s hs; cases hs
+  | stmt hi _ ih =>
+    intro s hs
+    rcases List.mem_cons.mp hs with rfl | hs
+    · exact ⟨_, _, _, _, _, ht, hi, rfl⟩
+    · exact ih ht s hs
+  | inc _ _ er _ _ ih1 ih2 =>
+    intro s hs
+    rcases List.mem_append.mp hs with hs | hs
+    · exact ih1 er s hs
+    · exact ih2 ht s hs
+
 /-- names of different file instances, and different names of one instance, get different numbers -/
 def NumInj (num : Nat → Bytes → Nat) : Prop := ∀ i j a b, num i a = num j b → i = j ∧ a = b
 
